@@ -242,6 +242,23 @@ pub fn gen_sim_case(prop: &str, r: &mut SplitMix64) -> SimCase {
         t += *r.pick(&[0u64, 0, 1, 1000, 10_000, 100_000, 1_000_000, 5_000_000, 50_000_000, 1_000_000_000]);
         trace.push((t, r.chance(1, 2)));
     }
+    // trace files need not be sorted: sometimes the lines come in another order (all sends first, a late
+    // line first, a random permutation); the queue orders them
+    if r.chance(1, 8) && trace.len() > 1 {
+        match r.below(3) {
+            0 => trace.sort_by_key(|x| !x.1),
+            1 => {
+                let k = r.range(1, trace.len() as u64 - 1) as usize;
+                trace.swap(0, k);
+            }
+            _ => {
+                for i in (1..trace.len()).rev() {
+                    let j = r.below(i as u64 + 1) as usize;
+                    trace.swap(i, j);
+                }
+            }
+        }
+    }
     let delay_ns = *r.pick(&[0u64, 1_000, 1_000_000, 10_000_000, 50_000_000]);
     let pps = if prop == "C14" { None } else if r.chance(1, 8) { Some(*r.pick(&[1usize, 2, 5, 50, 100000])) } else { None };
     let cont = !no_machines && r.chance(1, 3);
